@@ -97,6 +97,52 @@ theorem select_legal (basis : Array W) (n : Nat) (pol : Policy) (rnd : Nat → N
     exact ⟨q, k', h1, ⟨m, h2⟩, h3, by omega, h5⟩
   | placeWin => exact placeWins_select_never_panics basis n rnd p k hi hno
 
+/-- **What a `Select` step may return** (the set the tie checks the real, seeded `math/rand` runs against, op `pw.selr`):
+whatever the stream, on any position, an answer of `Select` is in `Policy.mayReturn` — every legal successor for the
+uniform policy; for `place_win` the successor by the proposed placement (flat, else capstone) when `Move` accepts it. -/
+theorem select_mem_mayReturn (basis : Array W) (c : Consts) (pol : Policy) (rnd : Nat → Nat) (p : Pos) (k : Nat)
+    (q : Pos) (k' : Nat) (h : pol.select basis c rnd p k = .ok (q, k')) : q ∈ pol.mayReturn basis c p := by
+  have huni : ∀ q k', uniformSelect basis rnd p k = .ok (q, k') → q ∈ (legalChildren basis p).map (·.2) := by
+    intro q k' hu
+    obtain ⟨⟨m, hm, ha⟩, _⟩ :=
+      (uniformLoop_spec basis p rnd p.allMoves.length p.allMoves k (Nat.le_refl _)).1 q k' hu
+    exact List.mem_map.mpr ⟨(m, q), (populate_children_legal basis p m q).mpr ⟨hm, ha⟩, rfl⟩
+  cases pol with
+  | uniform => exact huni q k' h
+  | placeWin =>
+    simp only [Policy.select, placeWinsSelect] at h
+    simp only [Policy.mayReturn]
+    cases hmv : placeWinMove c p with
+    | error e => rw [hmv] at h; cases h
+    | ok mv =>
+      rw [hmv] at h
+      simp only at h ⊢
+      by_cases ht : mv.type ≠ 0
+      · rw [if_pos ht] at h ⊢
+        cases h1 : p.apply basis mv with
+        | ok out =>
+          rw [h1] at h
+          simp only at h ⊢
+          cases h; exact List.mem_singleton.mpr rfl
+        | error e1 =>
+          obtain ⟨w1, hw1⟩ := apply_ill h1
+          subst hw1
+          rw [h1] at h
+          simp only at h ⊢
+          cases h2 : p.apply basis { mv with type := Facts.mtPlaceCapstone } with
+          | ok out =>
+            rw [h2] at h
+            simp only at h ⊢
+            cases h; exact List.mem_singleton.mpr rfl
+          | error e2 =>
+            obtain ⟨w2, hw2⟩ := apply_ill h2
+            subst hw2
+            rw [h2] at h
+            simp only at h ⊢
+            exact huni q k' h
+      · rw [if_neg ht] at h ⊢
+        exact huni q k' h
+
 /-! ## the pinned `PlaceWins.Select` -/
 
 deriving instance DecidableEq for Except
